@@ -74,7 +74,9 @@ def p_has_ctx(v):
 PREDS = {"even": p_even, "raise_odd": p_raise_odd, "raise_str": p_raise_str,
          "true": p_true, "false": p_false, "has_ctx": p_has_ctx}
 CLASSES = {"int": int, "str": str, "tuple": tuple, "HV": HV, "dict": dict}
-STRS = ["a", "a.b", "a.b.x", "a.b.c", "c", "c.1", "b.s", "a.b.x.y", "d.e"]
+STRS = ["a", "a.b", "a.b.x", "a.b.c", "c", "c.1", "b.s", "a.b.x.y", "d.e",
+        # the documented string test against a scalar that is false
+        "c.0", "a.b.None", "a.False", "d.0"]
 
 # predicates on sub-contexts (SelectContext)
 SUBPREDS = {
@@ -116,6 +118,7 @@ VALUES = [
     ["p", 6, {}], ["p", "s", {"a": {"b": {"x": 1, "c": 2}}}],
     ["p", 7, {"a": {"b": "c"}, "b": "s", "c": [1]}], ["p", ["HV"], {"d": {"e": 2}}],
     ["HV"], ["p", 2, {"a": {"b": None}}],
+    ["p", 8, {"c": 0}], ["p", 9, {"a": False, "d": 0}],
 ]
 
 
